@@ -50,7 +50,7 @@ def plan(tier, seed):
 
 def finalize(agg, tier):
     r = []
-    for c in ("mutations_executed", "outcome_error", "outcome_same_plaintext", "algorithm_substitutions", "deterministic_structure_mutations"):
+    for c in ("mutations_executed", "outcome_error", "outcome_same_plaintext", "algorithm_substitutions", "deterministic_structure_mutations", "async_executions"):
         if agg.counter(c) == 0:
             r.append(f"monitor never reached / outcome class never seen: {c}")
     if len(agg.sets.get("error_sites", ())) < 4:
@@ -60,14 +60,30 @@ def finalize(agg, tier):
     return r
 
 
+_LOOP = None
+_N = [0]
+
+
 def execute(rec: Recorder, base: mutate.Base, cache, mutated: bytes, label: str, wit_extra: dict) -> str:
+    import asyncio
+
     import dpapi_ng
 
+    global _LOOP
     wit = dict(wit_extra, base=base.name, mutation=label, mutated=mutated)
     mon.KDFS.n, mon.KDFS.limit = 0, KDF_BUDGET
+    _N[0] += 1
+    use_async = _N[0] % 8 == 0  # every 8th mutation goes through the async variant
     try:
         with mon.NET.guard():
-            got = dpapi_ng.ncrypt_unprotect_secret(mutated, cache=cache)
+            if use_async:
+                if _LOOP is None:
+                    _LOOP = asyncio.new_event_loop()
+                    asyncio.set_event_loop(_LOOP)
+                rec.count("async_executions")
+                got = _LOOP.run_until_complete(dpapi_ng.async_ncrypt_unprotect_secret(mutated, cache=cache))
+            else:
+                got = dpapi_ng.ncrypt_unprotect_secret(mutated, cache=cache)
     except mon.NetworkAttempt:
         rec.count("outcome_needs_network")
         return "needs-network"
